@@ -1,22 +1,22 @@
 #!/bin/bash
 # par_run.sh <seeds|benign> [names...]     ITERATION AID (not the registered procedure): runs the quick checks against
-# seeded / benign changes in N parallel scratch copies of /repo and /verif/harness under /tmp/vw, so that /repo itself
+# seeded / benign changes in N parallel scratch copies of /repo and /verif/harness under ${VWDIR:-/tmp/vw}, so that /repo itself
 # stays untouched.  Results are printed, nothing under /verif is modified.  Scratch copies are removed at the end.
 # The recorded results (seeded/*/meta.json) come from tools/run_seeds.sh, which applies each change to /repo itself.
 MODE=$1; shift
 N=${WORKERS:-5}
 DIR=/verif/seeded; [ "$MODE" = benign ] && DIR=/verif/benign
 names="$@"; [ -z "$names" ] && names=$(ls $DIR | grep -E "^C[0-9][0-9]")
-rm -rf /tmp/vw; mkdir -p /tmp/vw
-i=0; for n in $names; do echo $n >> /tmp/vw/list.$((i % N)); i=$((i+1)); done
+rm -rf ${VWDIR:-/tmp/vw}; mkdir -p ${VWDIR:-/tmp/vw}
+i=0; for n in $names; do echo $n >> ${VWDIR:-/tmp/vw}/list.$((i % N)); i=$((i+1)); done
 worker() {
-  w=$1; W=/tmp/vw/w$w; mkdir -p $W/verif
+  w=$1; W=${VWDIR:-/tmp/vw}/w$w; mkdir -p $W/verif
   git clone -q /repo $W/repo
   rsync -a --exclude target --exclude target-lax /verif/harness $W/verif/
   cp /verif/check /verif/known_findings.json $W/verif/
   sed -i "s|/repo/|$W/repo/|g" $W/verif/harness/Cargo.toml
-  [ -f /tmp/vw/list.$w ] || return
-  for s in $(cat /tmp/vw/list.$w); do
+  [ -f ${VWDIR:-/tmp/vw}/list.$w ] || return
+  for s in $(cat ${VWDIR:-/tmp/vw}/list.$w); do
     d=$DIR/$s; [ -f $d/patch.diff ] || continue
     pid=${s:0:3}
     if ! git -C $W/repo apply $d/patch.diff 2>/dev/null; then echo "$s: PATCH DOES NOT APPLY"; continue; fi
@@ -42,7 +42,7 @@ worker() {
     git -C $W/repo checkout -q -- .
   done
 }
-for w in $(seq 0 $((N-1))); do worker $w > /tmp/vw/out.$w 2>&1 & done
+for w in $(seq 0 $((N-1))); do worker $w > ${VWDIR:-/tmp/vw}/out.$w 2>&1 & done
 wait
-cat /tmp/vw/out.* | grep -v "^WARNING conda" | sort
-rm -rf /tmp/vw
+cat ${VWDIR:-/tmp/vw}/out.* | grep -v "^WARNING conda" | sort
+rm -rf ${VWDIR:-/tmp/vw}
